@@ -228,7 +228,7 @@ def run_state_rules(ck, facts, tier, hk):
         ck.check(r4, "update:all-fields-replaced", okk, "after a successful update self is not (rebuilt.fx_rates, rebuilt.currencies, rebuilt.fx_array)", where,
                  detail=cel.vfmt(oks[0]["params"][0])[:400] if oks else None, sample="self.{fx_rates,currencies,fx_array} <- rebuilt")
         a = tn.get("args")
-        okb = a is not None and len(a) == 2 and vkey(a[1]) == vkey(Sym("ctor", "Some", Poly.atom(("call", "index", (vkey(Sym("field", "currencies")), Poly.const(0).key())))))
+        okb = a is not None and len(a) == 2 and vkey(a[1]) == vkey(Sym("ctor", "Some", Sym("at", vkey(Sym("field", "currencies")), Poly.const(0).key())))
         ck.check(r4, "update:rebuild-base", okb, "the market is not rebuilt on its own first currency (base would change on update)", where,
                  detail=cel.vfmt(a[1])[:200] if a else None, sample="try_new(updated, Some(self.currencies[0]))")
         lst = a[0] if a else None
